@@ -50,12 +50,13 @@ Section Shard.
   Definition shard (ts : list A) (maxb : Z) (al : option Z) (thr : Z) : list (list A) :=
     shard_go ts [] 0 maxb al thr.
 
-  (* _safetensors._shard_tensors : no alignment, "current_shard_size > 0" instead of "shard non-empty" *)
+  (* _safetensors._shard_tensors : no alignment ; "and shards[-1]" since fix a217c9b
+     (before: "current_shard_size > 0", which let [0-byte; oversized] share a shard) *)
   Fixpoint st_shard_go (ts : list A) (cur : list A) (ssize : Z) (maxb : Z) : list (list A) :=
     match ts with
     | [] => [rev cur]
     | t :: r =>
-        if (maxb <? ssize + size t) && (0 <? ssize)
+        if (maxb <? ssize + size t) && negb (match cur with [] => true | _ => false end)
         then rev cur :: st_shard_go r [t] (size t) maxb
         else st_shard_go r (t :: cur) (ssize + size t) maxb
     end.
